@@ -40,7 +40,7 @@ def run(prog, rep):
     pair(prog, rep)
     rep.expect_min("C05.paramflow", 17)
     rep.expect_min("C05.slots", 20)
-    rep.expect_min("C05.siblings", 35)
+    rep.expect_min("C05.siblings", 70)
     rep.expect_min("C05.support", 2)
     rep.expect_min("C05.pair", 1)
     rep.expect_min("C05.generic", 5)
@@ -196,6 +196,10 @@ def siblings(prog, rep, fam):
     want = list(pn) + [f"f_{p}" for p in pn]
     rep.check(ip == want, "C05.siblings", f"{fam.ci.qualname}.__init__:formals", site,
               f"constructor formals {ip}", f"constructor formals {ip} differ from parameters keys + f_ names {want}")
+    pv = fam.param_values or {}
+    badv = [k for k in pn if pv.get(k) != A(k)]
+    rep.check(not badv, "C05.siblings", f"{fam.ci.qualname}.parameters:values", fam.m["parameters"].where(), "parameters[name] is self.<name>",
+              f"the parameters property must report each parameter under its own name: {[(k, show(pv.get(k, NONE))[:30]) for k in badv]}")
     first = {"cdf": None, "icdf": None, "pdf": None, "draw_sample": None}
     for mname, smeth in METHOD_MAP.items():
         fn = fam.m[mname]
@@ -206,6 +210,10 @@ def siblings(prog, rep, fam):
         site = fn.where()
         exp_formals = list(pn)
         got_formals = [p for p in allf[1:] if p != "random_state"]
+        dflt = fn.defaults()
+        not_none = [p for p in got_formals if not (p in dflt and isinstance(dflt[p], ast.Constant) and dflt[p].value is None)]
+        rep.check(not not_none, "C05.siblings", inst + ":defaults", site, "every parameter formal defaults to None (= use the stored value)",
+                  f"parameter formals {not_none} do not default to None: when they are not passed the instance's own value is silently replaced by the default")
         rep.check(got_formals == exp_formals, "C05.siblings", inst + ":formals", site,
                   f"formals {got_formals}", f"parameter formals {got_formals} differ from parameters keys {exp_formals} (order matters: conditionals pass by keyword, users by position)")
         ret = fam.return_stmt(fn)
@@ -331,6 +339,16 @@ def generic(prog, rep, fam):
               "positional override i replaces slot i when not None", "positional override must replace slot i by args[i] under 'is not None'")
     rep.check(kw_ok, "C05.generic", f"{ci.qualname}._get_scipy_parameters:keyword", site,
               "keyword override replaces the slot self._param_names.index(key)", "keyword override must replace the slot at self._param_names.index(key) by its own value")
+    lf = prog.lookup_method(ci, "_list_scipy_parameters")
+    okl = False
+    if lf is not None:
+        bl = builder(prog, lf, inline=False)
+        rl = [s for s in cfg_of(lf).all_stmts() if isinstance(s, ast.Return)]
+        augs = [s for s in cfg_of(lf).all_stmts() if isinstance(s, ast.AugAssign) and isinstance(s.op, ast.Add)]
+        okl = len(rl) == 1 and len(augs) == 1 and bl.term(augs[0].value, augs[0]) == ("list", (("const", "loc"), ("const", "scale"))) \
+            and isinstance(rl[0].value, ast.Name) and isinstance(augs[0].target, ast.Name) and augs[0].target.id == rl[0].value.id
+    rep.check(okl, "C05.generic", f"{ci.qualname}._list_scipy_parameters:order", lf.where() if lf else site, "parameter names = scipy shapes + ['loc', 'scale']",
+              "the generic wrapper's parameter order must be scipy's positional order: shape names, then loc, then scale")
     for mname, smeth in METHOD_MAP.items():
         f = fam.m[mname]
         rep.analysed(f)
